@@ -70,6 +70,7 @@ pub mod mstr {
             while v > 0 { d[k] = b'0' + (v % 10) as u8; v /= 10; k += 1; }
             while k > 0 { k -= 1; self.push(d[k]); }
         }
+        pub fn new() -> Self { Self::empty() }
         pub fn from_str(s: &str) -> Self { let mut m = Self::empty(); m.push_bytes(s.as_bytes()); m }
         pub fn len(&self) -> usize { unsafe { LEN[self.i] } }
         pub fn at(&self, k: usize) -> u8 { unsafe { ARENA[self.i][k] } }
